@@ -595,6 +595,22 @@ func prodAlias() string {
 }
 
 var prodLoadNs, prodRunNs atomic.Int64
+
+// outLine writes one result line to stdout; the product sweeps of the two alias modes run side by side
+var outMu sync.Mutex
+
+func outLine(line string) {
+	outMu.Lock()
+	os.Stdout.WriteString(line + "\n")
+	outMu.Unlock()
+}
+
+func outJSON(v interface{}) {
+	b, err := json.Marshal(v)
+	if err == nil {
+		outLine(string(b))
+	}
+}
 var prodSelfCheck bool
 
 func prodRunSet(t *hutil.Target, batch []prodRuleT, b int) (n int, bads []bad, pmsg, lerr string) {
@@ -865,7 +881,7 @@ func prodChild(tmp, alias string, full bool, args []string, budget time.Duration
 		case "prod-done":
 			done = true
 		case "run", "prod-meta":
-			os.Stdout.WriteString(line + "\n")
+			outLine(line)
 		}
 	}
 	werr := cmd.Wait()
@@ -900,7 +916,7 @@ func spawnProduct(enc *json.Encoder, tmp, alias string, full bool, budget time.D
 		}
 		if hi-lo == 1 {
 			named++
-			enc.Encode(prodResult(batches[b][lo], alias, b, 0, nil, why, "", ""))
+			outJSON(prodResult(batches[b][lo], alias, b, 0, nil, why, "", ""))
 			return
 		}
 		mid := (lo + hi) / 2
@@ -917,7 +933,7 @@ func spawnProduct(enc *json.Encoder, tmp, alias string, full bool, budget time.D
 		}
 		if !dead {
 			named++
-			enc.Encode(prodSetResult(batches[b][lo:hi], alias, b, 0, nil, why, ""))
+			outJSON(prodSetResult(batches[b][lo:hi], alias, b, 0, nil, why, ""))
 		}
 	}
 	for attempt := 0; attempt < 4; attempt++ {
@@ -935,7 +951,7 @@ func spawnProduct(enc *json.Encoder, tmp, alias string, full bool, budget time.D
 			return
 		}
 		if len(open) == 0 {
-			enc.Encode(result{K: "run", Inst: "product", Shape: "product", Alias: alias, Panic: "the product child died outside a batch: " + why})
+			outJSON(result{K: "run", Inst: "product", Shape: "product", Alias: alias, Panic: "the product child died outside a batch: " + why})
 			return
 		}
 		for b := range ended {
@@ -953,5 +969,5 @@ func spawnProduct(enc *json.Encoder, tmp, alias string, full bool, budget time.D
 			}
 		}
 	}
-	enc.Encode(result{K: "run", Inst: "product", Shape: "product", Alias: alias, Panic: "the product child keeps dying; gave up after 4 restarts"})
+	outJSON(result{K: "run", Inst: "product", Shape: "product", Alias: alias, Panic: "the product child keeps dying; gave up after 4 restarts"})
 }
